@@ -19,6 +19,8 @@ VERIF = os.path.dirname(os.path.dirname(os.path.abspath(__file__)))
 sys.path.insert(0, VERIF)
 REPO = os.environ.get("MEMENTO_REPO", "/repo")
 PROPS = ["C%02d" % i for i in range(1, 20)]
+if os.environ.get("PROPS"):   # PROPS=C05,C07 restricts the run to the checks of those properties (an owner's quick pass)
+    PROPS = [x.strip() for x in os.environ["PROPS"].split(",") if x.strip()]
 CORPUS = os.environ.get("BENIGN_DIR", "benign")   # benign = round 1 (six-per-property sweeps), benign2 = round 2 (focused)
 
 
@@ -114,6 +116,11 @@ def main():
     ids = [a for a in sys.argv[1:] if not a.startswith("-")] or sorted(os.listdir(os.path.join(VERIF, CORPUS)))
     ids = [i for i in ids if os.path.isdir(os.path.join(VERIF, CORPUS, i))]
     base, _ = verdicts(REPO)
+    broken = {p: v for p, v in base.items() if v != []}
+    if broken:
+        # the comparison below is against the unchanged tree: a check that does not pass there would mask the same verdict on a patch
+        print("the unchanged tree does not pass: %s" % {p: (v if isinstance(v, str) else "%d violations" % len(v)) for p, v in broken.items()})
+        sys.exit(2)
     from multiprocessing import Pool
     with Pool(int(os.environ.get("BENIGN_JOBS", "12"))) as pool:
         res = pool.map(one, [(i, base) for i in ids], chunksize=1)
